@@ -77,7 +77,29 @@ def c13_regex_meaning(seed):
         return out
     n = 0
     fails = []
+    # the separator of a rule is the WORD `&`: an ampersand inside a word
+    # belongs to the phrase (R&D, AT&T)
+    rules_amp = [['a&b & X'], ['a &b & Y y'], ['a&b'], ['b & a&b']]
+    for ln in range(0, 6):
+        for t in itertools.product('ab& ', repeat=ln):
+            txt = ''.join(t)
+            pos = list(range(100, 100 + len(txt)))
+            for rule in rules_amp:
+                n += 1
+                o_txt, o_pos = rp(txt, pos, rule)
+                want = ref(txt, rule[0])
+                if o_txt != want or len(o_txt) != len(o_pos):
+                    fails.append({'txt': txt, 'rule': rule, 'got': o_txt,
+                                  'expected': want})
+                if len(fails) >= 5:
+                    break
+            if len(fails) >= 5:
+                break
+        if len(fails) >= 5:
+            break
     for ln in range(0, 7):
+        if len(fails) >= 5:
+            break
         for t in itertools.product(alpha, repeat=ln):
             txt = ''.join(t)
             pos = list(range(100, 100 + len(txt)))
@@ -97,7 +119,7 @@ def c13_regex_meaning(seed):
         if len(fails) >= 5:
             break
     return {'name': 'replace_phrases-against-reference', 'bounded': True,
-            'bound': 'all texts of length <= 6 over 5 characters x 7 rules',
+            'bound': 'all texts of length <= 6 over 5 characters x 7 rules; length <= 5 over {a,b,&,blank} x 4 rules with an ampersand inside a word',
             'evaluations': n, 'failures': fails[:5]}
 
 
